@@ -26,6 +26,8 @@ def sources(tier):
         ("spot1+fut", ledger.FEES[1], ledger.quotes_of(scale), deposit, 2, False),
         ("spot4+fut", (0.0, 0.0), POW2_QUOTES, 65536.0, 2, True),
         ("fut+fut", (0.0, 0.0), POW2_QUOTES, 65536.0, 2, True),
+        # fractional holdings (reached through weight rebalances): whole-lot truncation must apply to the imbalance
+        ("spot1+fut", (0.0, 0.0), ledger.quotes_of(scale)[:3], deposit, 2, False, True),
     ]
     if tier == "thorough":
         out = [
@@ -35,13 +37,16 @@ def sources(tier):
             ("spot4+fut", (0.0, 0.0), POW2_QUOTES, 65536.0, 3, True),
             ("fut+fut", (0.0, 0.0), POW2_QUOTES, 65536.0, 3, True),
             ("spot+spot", (0.0, 0.0), POW2_QUOTES, 131072.0, 3, True),
+            ("spot1+fut", (0.0, 0.0), ledger.quotes_of(scale)[:3], deposit, 3, False, True),
+            ("fut+fut", ledger.FEES[1], ledger.quotes_of(scale)[:3], deposit, 2, False, True),
         ]
     return out
 
 
 def _collect(src):
-    universe, fee, quotes, deposit, depth, exact = src
-    ops = ledger.alphabet(with_rebalance=False, nquotes=len(quotes), marks=False)
+    universe, fee, quotes, deposit, depth, exact = src[:6]
+    frac = len(src) > 6 and src[6]
+    ops = ledger.alphabet(with_rebalance=frac, nquotes=len(quotes), marks=False)
     states, r = ledger.collect_states(universe, fee, depth, quotes, deposit, ops)
     return src, [(sb, ref, hist) for sb, ref, hist in states], r["transitions"]
 
@@ -91,7 +96,7 @@ def check_probe(sb, ref, cs, measure, alloc, th, fractional, exact_palette, exec
     nlv = ref.nlv(b.exchange, cs)
     table = rebal.imbalance_table(ref, b.exchange, cs, measure, alloc, nlv)
     rb = Rebalancing(contracts=list(cs), allocation=list(alloc), measure=measure, margin=th,
-                     fractional=fractional, time=T0 + timedelta(days=1))
+                     fractional=fractional, time=(b._last_accrual or T0) + timedelta(days=1))
     msgs = []
     try:
         if executed:
@@ -138,7 +143,7 @@ def check_probe(sb, ref, cs, measure, alloc, th, fractional, exact_palette, exec
 
 def _work(unit):
     src, chunk = unit
-    universe, fee, quotes, deposit, depth, exact_palette = src
+    universe, fee, quotes, deposit, depth, exact_palette = src[:6]
     cs = ledger.contracts_of(universe)
     reset_clock()
     out = {"evaluations": 0, "violations": [], "nontrivial": set(), "outcomes": set(), "boundary_cases": 0}
@@ -191,7 +196,7 @@ def run(tier, **kw):
                     "power-of-two palettes, {|w|-2^-20, |w| exactly, |w|+2^-20} per contract; non-trivial = distinct probe in which at "
                     "least one contract has exactly one acceptable outcome that is a trade" % (len(W_TARGETS), len(N_TARGETS), 2 * len(LOT_DELTAS)))
     rep.set("exhaustive", True)
-    rep.set("sources", [{"universe": s[0], "fee": s[1], "depth": s[4], "exact_palette": s[5]} for s in srcs])
+    rep.set("sources", [{"universe": s[0], "fee": s[1], "depth": s[4], "exact_palette": s[5], "fractional_holdings": len(s) > 6} for s in srcs])
     rep.set("samples", [
         {"universe": "spot4+fut", "history": [["t", 1, 2.0]], "measure": "nr-contracts", "alloc": [0.0, 2.5], "threshold": 0.0,
          "fractional": False, "expect": "imbalance 0.5 lot -> skipped, no exception"},
